@@ -5,7 +5,7 @@ import itertools
 from ufo import build, err_kind
 
 ID = "C03"
-THEOREM = "Ufo2ft.C03.C03_order / C03_notdef_first / C03_empty_order / C03_cmap / C03_dup / C03_uvs"
+THEOREM = "Ufo2ft.C03.C03_order / C03_notdef_first / C03_empty_order / C03_cmap / C03_cmap_every / C03_dup / C03_uvs"
 N = {"quick": 400, "thorough": 6000}
 RULE = ("function level: ALL name sets over {.notdef,a,b,c,B} x ALL glyphOrder lists of length<=3 (quick) / <=4 (thorough) "
         "over those names+{zzz}, and ALL name sets over {.notdef,-,.alt,.n,.notdef.x,a} (names sorting before / right after the string "
@@ -16,7 +16,8 @@ RULE = ("function level: ALL name sets over {.notdef,a,b,c,B} x ALL glyphOrder l
         "with or without a non-empty stored order it overrides) and a short list otherwise, TTF and OTF, saved and reloaded; end-to-end: random fonts "
         "(glyph names, public.glyphOrder or glyphOrder= argument with duplicates/unknown names/.notdef anywhere, BMP and "
         "supplementary code points, several per glyph, duplicate code points, variation sequences) through compileTTF and "
-        "compileOTF, saved and reloaded; histories: 3-4 fonts over one family's glyph names compiled one after another (compileTTF / compileOTF / alternating) or as the masters of one compileInterpolatableTTFs call with ONE shared explicit glyphOrder list object - each font's order must be the specified order for the ORIGINAL list. non-trivial = glyphOrder has a duplicate or unknown name or omits a glyph, or some "
+        "compileOTF, saved and reloaded; LOW-END code points: in ~30% of the random fonts (~20% of the lowNames fonts) one glyph gets U+0000 - as its FIRST code point (glyph.unicode == 0, falsy in Python; alone or followed by 1-2 secondary code points from U+0001/U+0008/U+000D/U+001D/U+0020/U+0041/U+1F600) in 3/4 of these, as a SECONDARY code point otherwise - a secondary code point may clash with one another glyph declares (must be rejected), and in 40% another glyph gets a low non-zero first code point (CR = U+000D, ...), tags U+0000-first / U+0000-first+secondary / U+0000-secondary; "
+        "histories: 3-4 fonts over one family's glyph names compiled one after another (compileTTF / compileOTF / alternating) or as the masters of one compileInterpolatableTTFs call with ONE shared explicit glyphOrder list object - each font's order must be the specified order for the ORIGINAL list. non-trivial = glyphOrder has a duplicate or unknown name or omits a glyph, or some "
         "code point > 0xFFFF, or a duplicate code point, or a variation sequence.")
 EXHAUSTIVE = False
 ASSUMED = ["cmap subtable binary encoding/decoding (fontTools) is an identity on the mapping"]
@@ -85,6 +86,7 @@ def gen(rng, n, mode):
                     continue
                 us.append(u); used.append(u)
             cps[nm] = us
+        _low_cps(rng, mode, names, cps, used, 0.3)
         uvs = []
         if used and rng.random() < 0.35:
             for vs in rng.sample([0xFE00, 0xFE0F, 0xE0100, 0xE0101], rng.choice([1, 2])):
@@ -113,6 +115,48 @@ def gen(rng, n, mode):
             continue
         yield {"kind": "font", "names": names, "glyphOrder": go, "cps": cps, "uvs": uvs,
                "arg": rng.random() < 0.4, "lib": rng.choice(["ufoLib2", "defcon"]), "fmt": rng.choice(["ttf", "otf"])}
+
+
+# boundary code points at the LOW end: U+0000 is the only code point that is falsy as a Python int (the classic TrueType
+# NULL glyph is mapped to it, with U+000D / U+0008 / U+001D as customary secondary code points); U+0001 is its neighbour
+LOWCP = [0x0000, 0x0001, 0x0008, 0x000D, 0x001D]
+
+
+def _low_cps(rng, mode, names, cps, used, p):
+    """with probability p give one encoded-or-not glyph (never '.notdef') a code-point list that involves U+0000: U+0000 FIRST
+    (so `glyph.unicode == 0`) alone or followed by 1-2 secondary code points (low ones, or ordinary ones), or U+0000 as a
+    SECONDARY code point after a low/ordinary first one; a secondary code point may clash with one another glyph declares
+    (must be rejected), and another glyph may get a low non-zero code point."""
+    cand = [nm for nm in names if nm != ".notdef"]
+    if not cand or 0 in used or rng.random() >= p:
+        return
+    nm = rng.choice(cand)
+    for u in cps[nm]:
+        used.remove(u)
+    r = rng.random()
+    sec = []
+    for _ in range(rng.choice([0, 1, 1, 2])):
+        u = rng.choice(LOWCP[1:] + [0x20, 0x41, 0x1F600])
+        clash = u in used
+        if u in sec or (clash and not (rng.random() < (0.5 if mode == "search" else 0.25))):
+            continue
+        sec.append(u)
+    if r < 0.75:
+        us = [0] + sec                              # U+0000 is the glyph's first code point
+    elif sec:
+        us = sec[:1] + [0] + sec[1:]                # U+0000 is a secondary code point
+    else:
+        us = [rng.choice([0x1, 0xD]), 0]
+        us = [u for u in us if u not in used]
+    cps[nm] = us
+    used.extend(us)
+    others = [x for x in cand if x != nm]
+    if others and rng.random() < 0.4:              # a neighbour with a low, non-zero first code point (e.g. CR = U+000D)
+        o = rng.choice(others)
+        u = rng.choice(LOWCP[1:])
+        if u not in used or rng.random() < 0.3:
+            cps[o] = [u] + cps[o]
+            used.append(u)
 
 
 def _gen_low(rng, mode):
@@ -145,6 +189,7 @@ def _gen_low(rng, mode):
             if u not in used:
                 us.append(u); used.append(u)
         cps[nm] = us
+    _low_cps(rng, mode, names, cps, used, 0.2)
     # defcon keeps an implicit glyph order as glyphs are added, so "nothing stored" is only reachable with ufoLib2
     lib = "ufoLib2" if (go is None or (mode == "search" and not arg)) else rng.choice(["ufoLib2", "ufoLib2", "defcon"])
     c = {"kind": "font", "names": names, "glyphOrder": go, "cps": cps, "uvs": [], "arg": arg, "lib": lib,
@@ -232,8 +277,19 @@ def run(case):
     allcps = [u for g in glyphs for u in g[1]]
     reqs.append({"op": "cmap", "in": {"glyphs": glyphs, "uvs": case["uvs"]}, "obs": obs,
                  "nontrivial": any(u > 0xFFFF for u in allcps) or len(set(allcps)) != len(allcps) or bool(case["uvs"]),
-                 "tags": tags + ["cmap", "err:" + str(err)] + (["nonBMP"] if any(u > 0xFFFF for u in allcps) else []) + (["uvs"] if case["uvs"] else [])})
+                 "tags": tags + ["cmap", "err:" + str(err)] + _zero_tags(glyphs) + (["nonBMP"] if any(u > 0xFFFF for u in allcps) else []) + (["uvs"] if case["uvs"] else [])})
     return reqs
+
+
+def _zero_tags(glyphs):
+    t = []
+    if any(us[:1] == [0] for _, us in glyphs):
+        t.append("U+0000-first")
+        if any(len(us) > 1 and us[0] == 0 for _, us in glyphs):
+            t.append("U+0000-first+secondary")
+    if any(0 in us[1:] for _, us in glyphs):
+        t.append("U+0000-secondary")
+    return t
 
 
 def _run_history(case):
@@ -326,10 +382,15 @@ LEVEL_TEXT = ("Proved for all inputs (Lean): the modelled glyph-order algorithm 
               "for every name set and order (also when names compare lower than '.notdef'), and with an empty order the result is "
               "'.notdef' + all other names sorted (with a proved witness that this differs from plain sorted()); the modelled "
               "code-point mapping equals the source declarations exactly when no code point is declared twice and is an "
-              "InvalidFontData error otherwise; BMP/supplementary subtable split; default/non-default UVS rule. The model is tied "
+              "InvalidFontData error otherwise; every code point of every glyph - U+0000 included, whether it is the glyph's first or a secondary "
+              "code point - is mapped to that glyph in the 16-bit subtables (if <= 0xFFFF) and in the 32-bit subtables when present "
+              "(C03_cmap_every: no 'encoded glyph' pre-selection exists in the model, all glyphs of the glyph order are handed over); BMP/supplementary subtable split; default/non-default UVS rule. The model is tied "
               "to the code by exhaustive small-scope + random differential runs through compileTTF/compileOTF.")
 LEVEL_NOTE = ("Trusted: Lean kernel + propext/Classical.choice/Quot.sound; the hand-written model's correspondence to util.py / "
               "outlineCompiler.py is differential (generators bound it; string comparison is by code point in both Lean and Python, "
               "the generated names are ASCII); the empty-effective-order x low-sorting-name scenarios are generated, not enumerated "
-              "beyond the 6-name scope; fontTools' cmap codec is assumed identity; a '.notdef' "
+              "beyond the 6-name scope; the model of BaseOutlineCompiler.makeUnicodeToGlyphNameMapping is 'util.makeUnicodeToGlyphNameMapping over "
+              "ALL glyphs in glyph order' - that the compiler's wrapper passes every glyph (also one whose first code point is the falsy U+0000) "
+              "is checked differentially by the U+0000 stream through compileTTF/compileOTF, with the declarative holdsCmap / noDup predicates "
+              "evaluated on the observed subtables; code points below U+0020 other than 0,1,8,0xD,0x1D are not generated; fontTools' cmap codec is assumed identity; a '.notdef' "
               "glyph carrying code points is excluded (glyph index 0 cannot be a cmap target in the binary format).")
